@@ -20,6 +20,18 @@
 //!    file's name (`tamper_matrix`: file kind x tamper kind x metadata kept/recomputed), which must
 //!    end in a corruption error; on hand-written directories with one garbage collection whose
 //!    record is consistent but whose outputs are not the policy's (`gc_directed`).
+//!  * compensating pairs (`pair_matrix`, `pair_directed`): TWO recorded digests of one record
+//!    altered so that they cancel (`D+x / O−x`, a collection's `D := 0 / O := I`; also `O` with the
+//!    next record's `I`) — every record kind x position in its fragment x alteration, on copies of
+//!    the store's directories and on hand-written ones; the real LsmVerifier must end with a
+//!    corruption error (`tampered-digest-pair-accepted`), the model gets the same directory.
+//!  * recovery of SEVERAL write-ahead logs in one open (`two_logs`): directories with two or three
+//!    non-empty logs the manifest does not know — written by hand (`LogBuilder`) or left by the
+//!    store itself (real `memtable_thread` on a helper thread, its flush parked in the level-0
+//!    ingest stall while the client goes on writing, the directory copied) — reopened with the
+//!    real store: `ledger recover` (`Blue.Books.recoverRecs`) against the records the open wrote,
+//!    the oracle on those records (chain, balance, file = the log's entries), then the whole
+//!    books oracle, every acknowledged write, a verifier pass, and again after another reopen.
 use crate::common::*;
 
 fn tainted(v: Verdict, taint: &Option<String>) -> Verdict {
@@ -503,6 +515,11 @@ fn count_pass(rec: &mut Recorder, d: &FullDir, prefix: &str) -> (usize, usize) {
 
 /// run the real verifier once on `dir` (a directory nothing else is using) and emit the case
 fn pass_case(rec: &mut Recorder, tag: &str, cfg: &Cfg, dir: &str, taint: &Option<String>, expect_corrupt: Option<&str>, prefix: &str, fresh: Option<&str>) -> String {
+    pass_case_class(rec, tag, cfg, dir, taint, expect_corrupt, prefix, fresh, "tampered-sst-entry-accepted")
+}
+
+/// … `accept_class`: the oracle class when a pass that owed a corruption error ends otherwise
+fn pass_case_class(rec: &mut Recorder, tag: &str, cfg: &Cfg, dir: &str, taint: &Option<String>, expect_corrupt: Option<&str>, prefix: &str, fresh: Option<&str>, accept_class: &str) -> String {
     let before = full_dir(dir);
     if before.unreadable {
         rec.count(&format!("{}.skipped_unreadable", prefix));
@@ -516,7 +533,7 @@ fn pass_case(rec: &mut Recorder, tag: &str, cfg: &Cfg, dir: &str, taint: &Option
     let obs = observed_pass_full(&before, &after, &status);
     rec.count(&format!("{}.{}", prefix, status.split(':').next().unwrap_or("?")));
     let v = match expect_corrupt {
-        Some(what) if !status.starts_with("corrupt") => Verdict::Fail { class: taint.clone().unwrap_or_else(|| "tampered-sst-entry-accepted".to_string()), detail: format!("{} {}: the pass ends {} (a corruption error was due)", tag, what, status) },
+        Some(what) if !status.starts_with("corrupt") => Verdict::Fail { class: taint.clone().unwrap_or_else(|| accept_class.to_string()), detail: format!("{} {}: the pass ends {} (a corruption error was due)", tag, what, status) },
         None if status != "ok" => Verdict::Fail { class: taint.clone().unwrap_or_else(|| "verifier-rejects-store-history".to_string()), detail: format!("{} pass on an untampered copy ends {}", tag, status) },
         _ => Verdict::Ok,
     };
@@ -862,10 +879,10 @@ fn patch_metadata_setsum(path: &str, have: &[u8; 32], want: &[u8; 32]) -> bool {
 /// setsum is the recomputed one or the one the name promises, and the real LsmVerifier runs on the
 /// copy: it must end with a corruption error; the model gets the same directory and contents.
 /// The untampered copy goes first (control: must end ok; also one honest whole-pass case).
-fn tamper_matrix(rec: &mut Recorder, rng: &mut Rng, sim: &Sim, root: &str, tag: &str, taint: &Option<String>, rot: &mut std::collections::BTreeMap<&'static str, u64>) {
+fn tamper_matrix(rec: &mut Recorder, rng: &mut Rng, sim: &Sim, root: &str, tag: &str, taint: &Option<String>, rot: &mut std::collections::BTreeMap<&'static str, u64>) -> bool {
     let dir = full_dir(root);
     if dir.unreadable || dir.to_process().is_empty() {
-        return;
+        return false;
     }
     let mut cands: std::collections::BTreeMap<&'static str, Vec<String>> = Default::default();
     for (_, es) in dir.to_process() {
@@ -886,19 +903,19 @@ fn tamper_matrix(rec: &mut Recorder, rng: &mut Rng, sim: &Sim, root: &str, tag: 
     }
     if cands.is_empty() {
         rec.count("sst_tamper.no_unverified_transaction");
-        return;
+        return false;
     }
     // control
     let control_dir = format!("{}.control", root);
     let _ = std::fs::remove_dir_all(&control_dir);
     if copy_dir(Path::new(root), Path::new(&control_dir)).is_err() {
-        return;
+        return false;
     }
     let control = pass_case(rec, &format!("{} control", tag), &sim.cfg, &control_dir, taint, None, "pass.control", None);
     let _ = std::fs::remove_dir_all(&control_dir);
     if control != "ok" {
         rec.count("sst_tamper.inconclusive_control_not_ok");
-        return;
+        return false;
     }
     for role in ROLES {
         let Some(list) = cands.get(role) else { continue };
@@ -965,6 +982,7 @@ fn tamper_matrix(rec: &mut Recorder, rng: &mut Rng, sim: &Sim, root: &str, tag: 
         pass_case(rec, &format!("{} sst-tamper {} {} meta-{} {}", tag, role, kind, meta, &victim[..12]), &sim.cfg, &copy, taint, Some(&format!("{} one entry of {} ({})", kind, &victim[..12], role)), "pass.tampered", Some(&victim));
         let _ = std::fs::remove_dir_all(&copy);
     }
+    true
 }
 
 /// a digest text changed so that `Setsum::from_hexdigest` still reads the same value: the first
@@ -990,6 +1008,197 @@ fn same_value_text(rng: &mut Rng, s: &str) -> Option<String> {
     String::from_utf8(v).ok()
 }
 
+/// The C04 oracle on the state the store is in (after a manifest transaction, after a recovery):
+/// manifest O == sum of the setsums of the listed files == sum recomputed from the stored entries,
+/// the in-memory manifest agrees, every fragment chains from its predecessor, balances, and is
+/// accepted by the real ManifestVerifier and by `Blue.Books.verify` (`ledger verify`); then the
+/// single-digest tamper stream on each fragment.  false = the state could not be dumped.
+fn books_check(rec: &mut Recorder, rng: &mut Rng, sim: &Sim, root: &str, tag: &str, taint: &Option<String>, mverifier: &lsmtk::ManifestVerifier, seen_fragments: &mut std::collections::BTreeSet<String>, tampers: usize) -> bool {
+    let d = match sim.dump() {
+        Ok(d) => d,
+        Err(e) => {
+            rec.case(&format!("# {}", tag), "#", Verdict::Fail { class: "dump-error".into(), detail: e }, None);
+            return false;
+        }
+    };
+    let frags = list_fragments(&root);
+    let mut bad: Vec<String> = vec![];
+    // --- current state: manifest O == sum of listed files == sum recomputed from contents
+    let newest = read_fragment(frags.last().unwrap());
+    let mut listed: Vec<String> = vec![];
+    let mut recorded_o = String::new();
+    match &newest {
+        Ok(edits) => {
+            let mut strs: std::collections::BTreeSet<String> = Default::default();
+            for e in edits {
+                for r in &e.rmed {
+                    strs.remove(r);
+                }
+                for a in &e.added {
+                    strs.insert(a.clone());
+                }
+                if let Some(o) = &e.o {
+                    recorded_o = o.clone();
+                }
+            }
+            listed = strs.into_iter().collect();
+        }
+        Err(e) => bad.push(format!("MANIFEST unreadable: {}", e)),
+    }
+    let mut file_digests: Vec<String> = vec![];
+    let mut sum_meta = setsum::Setsum::default();
+    let mut sum_content = setsum::Setsum::default();
+    for l in &d.levels {
+        for f in l {
+            let s = setsum::Setsum::from_digest(f.setsum);
+            sum_meta += s;
+            let c = entry_setsum(&f.entries);
+            sum_content += c;
+            if c != s {
+                bad.push(format!("file {} setsum differs from setsum of its entries", &hex(&f.setsum)[..12]));
+            }
+            file_digests.push(s.hexdigest());
+        }
+    }
+    file_digests.sort();
+    // the manifest object the running store holds must list exactly the version's files
+    {
+        let (mut live_strs, live_o) = sim.kvs().verif_tree().verif_manifest();
+        live_strs.sort();
+        if live_strs != file_digests {
+            bad.push(format!("the store's in-memory manifest lists {} files, its version holds {}", live_strs.len(), file_digests.len()));
+        }
+        if live_o.as_deref() != Some(sum_meta.hexdigest().as_str()) {
+            bad.push("the store's in-memory manifest O != sum of the version's files".to_string());
+        }
+    }
+    if newest.is_ok() {
+        if file_digests != listed {
+            bad.push(format!("manifest lists {} files, version holds {}", listed.len(), file_digests.len()));
+        }
+        if sum_meta.hexdigest() != recorded_o {
+            bad.push(format!("manifest O {} != sum of listed files {}", &recorded_o[..recorded_o.len().min(12)], &sum_meta.hexdigest()[..12]));
+        }
+        if sum_content.hexdigest() != recorded_o {
+            bad.push("manifest O != setsum recomputed from all stored entries".to_string());
+        }
+    }
+    let req = format!("ledger total {}", file_digests.join(" "));
+    let v = if bad.is_empty() { Verdict::Ok } else { Verdict::Fail { class: taint.clone().unwrap_or_else(|| "books-do-not-balance".to_string()), detail: format!("{} {}", tag, bad.join("; ")) } };
+    rec.count("state_checks");
+    rec.case(&req, &recorded_o, tainted(v, &taint), if file_digests.len() >= 2 { Some(fnv(req.as_bytes())) } else { None });
+    // --- every fragment: chain, balance, verifier verdict; model verdict
+    let mut prev_last_o: Option<String> = None;
+    for (fi, f) in frags.iter().enumerate() {
+        let edits = match read_fragment(f) {
+            Ok(e) => e,
+            Err(e) => {
+                rec.case(&format!("# {} fragment {}", tag, fi), "#", Verdict::Fail { class: taint.clone().unwrap_or_else(|| "fragment-unreadable".to_string()), detail: e }, None);
+                continue;
+            }
+        };
+        if edits.is_empty() {
+            continue;
+        }
+        let mut fbad = vec![];
+        if let (Some(p), Some(o)) = (&prev_last_o, &edits[0].o) {
+            if p != o {
+                fbad.push(format!("fragment {} does not start from the previous fragment's output", fi));
+            }
+        }
+        prev_last_o = edits.last().and_then(|e| e.o.clone());
+        let is_newest = fi + 1 == frags.len();
+        // completed fragments never change again: check each once; the newest every time
+        let key = format!("{}:{}", f.display(), edits.len());
+        if !is_newest && seen_fragments.contains(&key) {
+            continue;
+        }
+        seen_fragments.insert(key);
+        let real = mverifier.verify(f);
+        let cls = verdict_class(&real);
+        if cls != "accept" {
+            fbad.push(format!("ManifestVerifier rejects store-written fragment {}: {}", fi, cls));
+        }
+        if let Some(req) = ledger_request(&edits) {
+            let v = if fbad.is_empty() { Verdict::Ok } else { Verdict::Fail { class: taint.clone().unwrap_or_else(|| "books-do-not-balance".to_string()), detail: format!("{} {}", tag, fbad.join("; ")) } };
+            rec.count("fragments_verified");
+            rec.add("edits_verified", edits.len() as u64 - 1);
+            let kinds = edits[1..].iter().filter(|e| !e.rmed.is_empty() && e.d.as_deref() != Some(&setsum::Setsum::default().hexdigest())).count();
+            rec.add("gc_edits", kinds as u64);
+            rec.case(&req, &cls, tainted(v, &taint), if edits.len() >= 3 { Some(fnv(req.as_bytes())) } else { None });
+            // --- tamper stream on this fragment
+            if edits.len() >= 2 {
+                for _ in 0..tampers {
+                    let mut t = edits.clone();
+                    let ei = rng.range(1, t.len() as u64 - 1) as usize;
+                    let what = rng.below(5);
+                    let e = &mut t[ei];
+                    let kind = match what {
+                        0 => {
+                            e.i = e.i.as_ref().map(|s| flip_hex_digit(&mut *rng, s));
+                            "I"
+                        }
+                        1 => {
+                            e.o = e.o.as_ref().map(|s| flip_hex_digit(&mut *rng, s));
+                            "O"
+                        }
+                        2 => {
+                            e.d = e.d.as_ref().map(|s| flip_hex_digit(&mut *rng, s));
+                            "D"
+                        }
+                        3 if !e.added.is_empty() => {
+                            let k = rng.below(e.added.len() as u64) as usize;
+                            e.added[k] = flip_hex_digit(&mut *rng, &e.added[k]);
+                            "added"
+                        }
+                        _ if !e.rmed.is_empty() => {
+                            let k = rng.below(e.rmed.len() as u64) as usize;
+                            e.rmed[k] = flip_hex_digit(&mut *rng, &e.rmed[k]);
+                            "rmed"
+                        }
+                        _ => {
+                            e.d = e.d.as_ref().map(|s| flip_hex_digit(&mut *rng, s));
+                            "D"
+                        }
+                    };
+                    // every third tamper: the text changes, the value it parses to does not
+                    let same_value = rng.chance(1, 4);
+                    if same_value {
+                        t = edits.clone();
+                        let e = &mut t[ei];
+                        let field = match what % 3 {
+                            0 => &mut e.i,
+                            1 => &mut e.o,
+                            _ => &mut e.d,
+                        };
+                        match field.as_ref().and_then(|s| same_value_text(&mut *rng, s)) {
+                            Some(x) => *field = Some(x),
+                            None => continue,
+                        }
+                    }
+                    let kind = if same_value { "same-value-text" } else { kind };
+                    let tpath = PathBuf::from(format!("{}/tampered.manifest", root));
+                    write_fragment(&tpath, &t);
+                    let real = mverifier.verify(&tpath);
+                    let cls = verdict_class(&real);
+                    let _ = std::fs::remove_file(&tpath);
+                    let req = ledger_request(&t).unwrap();
+                    rec.count(&format!("tamper.{}", kind));
+                    let v = if same_value {
+                        if cls == "accept" { Verdict::Ok } else { Verdict::Fail { class: "same-value-digest-text-rejected".into(), detail: format!("{} edit {}: {}", tag, ei, cls) } }
+                    } else if cls == "accept" {
+                        Verdict::Fail { class: "tampered-digest-accepted".into(), detail: format!("{} edit {} field {}", tag, ei, kind) }
+                    } else {
+                        Verdict::Ok
+                    };
+                    rec.case(&req, &cls, v, Some(fnv(req.as_bytes())));
+                }
+            }
+        }
+    }
+    true
+}
+
 pub fn run_history(rec: &mut Recorder, seed: u64, hidx: u64, len: usize, nkeys: usize, tampers: usize, gc_focus: bool, rot: &mut std::collections::BTreeMap<&'static str, u64>) {
     let mut rng = Rng::for_case(seed, if gc_focus { 1040 } else { 104 }, hidx);
     let mut cfg = Cfg::gen(&mut rng);
@@ -998,7 +1207,9 @@ pub fn run_history(rec: &mut Recorder, seed: u64, hidx: u64, len: usize, nkeys: 
     if gc_focus {
         // garbage collections at the last level, manifest fragments rolling over after nearly every
         // transaction, and no verifier pass consuming them: GC edits pile up unverified
-        cfg.mani_ratio = 1;
+        // (every third history lets a fragment grow to a few transactions: records that are
+        // followed by another one in their fragment, for the pair tampers)
+        cfg.mani_ratio = if hidx % 3 == 2 { 3 } else { 1 };
         ops.retain(|o| !matches!(o, Op::Verify));
     }
     let root = scratch_dir(&format!("c04.{}", hidx));
@@ -1053,7 +1264,9 @@ pub fn run_history(rec: &mut Recorder, seed: u64, hidx: u64, len: usize, nkeys: 
         }
         if gc_focus && matches!(op, Op::Flush | Op::Compact(_)) && taint.is_none() && rng.chance(1, 3) && tamper_points < 60 {
             tamper_points += 1;
-            tamper_matrix(rec, &mut rng, &sim, &root, &tag, &taint, rot);
+            if tamper_matrix(rec, &mut rng, &sim, &root, &tag, &taint, rot) {
+                pair_matrix(rec, &mut rng, &sim, &root, &tag, &taint, rot);
+            }
             // keep the pile of unverified fragments (and with it every dumped directory) bounded:
             // a real pass on the store's own directory consumes them (and is one more honest case)
             let d = full_dir(&root);
@@ -1090,193 +1303,742 @@ pub fn run_history(rec: &mut Recorder, seed: u64, hidx: u64, len: usize, nkeys: 
                 }
             }
         }
-        let d = match sim.dump() {
-            Ok(d) => d,
-            Err(e) => {
-                rec.case(&format!("# {}", tag), "#", Verdict::Fail { class: "dump-error".into(), detail: e }, None);
-                break;
-            }
-        };
-        let frags = list_fragments(&root);
-        let mut bad: Vec<String> = vec![];
-        // --- current state: manifest O == sum of listed files == sum recomputed from contents
-        let newest = read_fragment(frags.last().unwrap());
-        let mut listed: Vec<String> = vec![];
-        let mut recorded_o = String::new();
-        match &newest {
-            Ok(edits) => {
-                let mut strs: std::collections::BTreeSet<String> = Default::default();
-                for e in edits {
-                    for r in &e.rmed {
-                        strs.remove(r);
-                    }
-                    for a in &e.added {
-                        strs.insert(a.clone());
-                    }
-                    if let Some(o) = &e.o {
-                        recorded_o = o.clone();
-                    }
-                }
-                listed = strs.into_iter().collect();
-            }
-            Err(e) => bad.push(format!("MANIFEST unreadable: {}", e)),
-        }
-        let mut file_digests: Vec<String> = vec![];
-        let mut sum_meta = setsum::Setsum::default();
-        let mut sum_content = setsum::Setsum::default();
-        for l in &d.levels {
-            for f in l {
-                let s = setsum::Setsum::from_digest(f.setsum);
-                sum_meta += s;
-                let c = entry_setsum(&f.entries);
-                sum_content += c;
-                if c != s {
-                    bad.push(format!("file {} setsum differs from setsum of its entries", &hex(&f.setsum)[..12]));
-                }
-                file_digests.push(s.hexdigest());
-            }
-        }
-        file_digests.sort();
-        // the manifest object the running store holds must list exactly the version's files
-        {
-            let (mut live_strs, live_o) = sim.kvs().verif_tree().verif_manifest();
-            live_strs.sort();
-            if live_strs != file_digests {
-                bad.push(format!("the store's in-memory manifest lists {} files, its version holds {}", live_strs.len(), file_digests.len()));
-            }
-            if live_o.as_deref() != Some(sum_meta.hexdigest().as_str()) {
-                bad.push("the store's in-memory manifest O != sum of the version's files".to_string());
-            }
-        }
-        if newest.is_ok() {
-            if file_digests != listed {
-                bad.push(format!("manifest lists {} files, version holds {}", listed.len(), file_digests.len()));
-            }
-            if sum_meta.hexdigest() != recorded_o {
-                bad.push(format!("manifest O {} != sum of listed files {}", &recorded_o[..recorded_o.len().min(12)], &sum_meta.hexdigest()[..12]));
-            }
-            if sum_content.hexdigest() != recorded_o {
-                bad.push("manifest O != setsum recomputed from all stored entries".to_string());
-            }
-        }
-        let req = format!("ledger total {}", file_digests.join(" "));
-        let v = if bad.is_empty() { Verdict::Ok } else { Verdict::Fail { class: taint.clone().unwrap_or_else(|| "books-do-not-balance".to_string()), detail: format!("{} {}", tag, bad.join("; ")) } };
-        rec.count("state_checks");
-        rec.case(&req, &recorded_o, tainted(v, &taint), if file_digests.len() >= 2 { Some(fnv(req.as_bytes())) } else { None });
-        // --- every fragment: chain, balance, verifier verdict; model verdict
-        let mut prev_last_o: Option<String> = None;
-        for (fi, f) in frags.iter().enumerate() {
-            let edits = match read_fragment(f) {
-                Ok(e) => e,
-                Err(e) => {
-                    rec.case(&format!("# {} fragment {}", tag, fi), "#", Verdict::Fail { class: taint.clone().unwrap_or_else(|| "fragment-unreadable".to_string()), detail: e }, None);
-                    continue;
-                }
-            };
-            if edits.is_empty() {
-                continue;
-            }
-            let mut fbad = vec![];
-            if let (Some(p), Some(o)) = (&prev_last_o, &edits[0].o) {
-                if p != o {
-                    fbad.push(format!("fragment {} does not start from the previous fragment's output", fi));
-                }
-            }
-            prev_last_o = edits.last().and_then(|e| e.o.clone());
-            let is_newest = fi + 1 == frags.len();
-            // completed fragments never change again: check each once; the newest every time
-            let key = format!("{}:{}", f.display(), edits.len());
-            if !is_newest && seen_fragments.contains(&key) {
-                continue;
-            }
-            seen_fragments.insert(key);
-            let real = mverifier.verify(f);
-            let cls = verdict_class(&real);
-            if cls != "accept" {
-                fbad.push(format!("ManifestVerifier rejects store-written fragment {}: {}", fi, cls));
-            }
-            if let Some(req) = ledger_request(&edits) {
-                let v = if fbad.is_empty() { Verdict::Ok } else { Verdict::Fail { class: taint.clone().unwrap_or_else(|| "books-do-not-balance".to_string()), detail: format!("{} {}", tag, fbad.join("; ")) } };
-                rec.count("fragments_verified");
-                rec.add("edits_verified", edits.len() as u64 - 1);
-                let kinds = edits[1..].iter().filter(|e| !e.rmed.is_empty() && e.d.as_deref() != Some(&setsum::Setsum::default().hexdigest())).count();
-                rec.add("gc_edits", kinds as u64);
-                rec.case(&req, &cls, tainted(v, &taint), if edits.len() >= 3 { Some(fnv(req.as_bytes())) } else { None });
-                // --- tamper stream on this fragment
-                if edits.len() >= 2 {
-                    for _ in 0..tampers {
-                        let mut t = edits.clone();
-                        let ei = rng.range(1, t.len() as u64 - 1) as usize;
-                        let what = rng.below(5);
-                        let e = &mut t[ei];
-                        let kind = match what {
-                            0 => {
-                                e.i = e.i.as_ref().map(|s| flip_hex_digit(&mut rng, s));
-                                "I"
-                            }
-                            1 => {
-                                e.o = e.o.as_ref().map(|s| flip_hex_digit(&mut rng, s));
-                                "O"
-                            }
-                            2 => {
-                                e.d = e.d.as_ref().map(|s| flip_hex_digit(&mut rng, s));
-                                "D"
-                            }
-                            3 if !e.added.is_empty() => {
-                                let k = rng.below(e.added.len() as u64) as usize;
-                                e.added[k] = flip_hex_digit(&mut rng, &e.added[k]);
-                                "added"
-                            }
-                            _ if !e.rmed.is_empty() => {
-                                let k = rng.below(e.rmed.len() as u64) as usize;
-                                e.rmed[k] = flip_hex_digit(&mut rng, &e.rmed[k]);
-                                "rmed"
-                            }
-                            _ => {
-                                e.d = e.d.as_ref().map(|s| flip_hex_digit(&mut rng, s));
-                                "D"
-                            }
-                        };
-                        // every third tamper: the text changes, the value it parses to does not
-                        let same_value = rng.chance(1, 4);
-                        if same_value {
-                            t = edits.clone();
-                            let e = &mut t[ei];
-                            let field = match what % 3 {
-                                0 => &mut e.i,
-                                1 => &mut e.o,
-                                _ => &mut e.d,
-                            };
-                            match field.as_ref().and_then(|s| same_value_text(&mut rng, s)) {
-                                Some(x) => *field = Some(x),
-                                None => continue,
-                            }
-                        }
-                        let kind = if same_value { "same-value-text" } else { kind };
-                        let tpath = PathBuf::from(format!("{}/tampered.manifest", root));
-                        write_fragment(&tpath, &t);
-                        let real = mverifier.verify(&tpath);
-                        let cls = verdict_class(&real);
-                        let _ = std::fs::remove_file(&tpath);
-                        let req = ledger_request(&t).unwrap();
-                        rec.count(&format!("tamper.{}", kind));
-                        let v = if same_value {
-                            if cls == "accept" { Verdict::Ok } else { Verdict::Fail { class: "same-value-digest-text-rejected".into(), detail: format!("{} edit {}: {}", tag, ei, cls) } }
-                        } else if cls == "accept" {
-                            Verdict::Fail { class: "tampered-digest-accepted".into(), detail: format!("{} edit {} field {}", tag, ei, kind) }
-                        } else {
-                            Verdict::Ok
-                        };
-                        rec.case(&req, &cls, v, Some(fnv(req.as_bytes())));
-                    }
-                }
-            }
+        if !books_check(rec, &mut rng, &sim, &root, &tag, &taint, &mverifier, &mut seen_fragments, tampers) {
+            break;
         }
         let _ = strip_pos;
     }
     rec.add("flushes", sim.flushes);
     rec.add("compactions", sim.compactions);
     rec.add("reopens", sim.reopens);
+    sim.close();
+}
+
+// ---------------------------------------------------------------------------------------------
+// compensating pairs: TWO recorded digests of one transaction altered so that they cancel
+
+const PAIR_ALTERATIONS: &[&str] = &["D+x,O-x", "D-x,O+x", "D=0,O=I", "O+x,nextI+x", "D-x,O+x,nextI+x,nextO+x"];
+
+/// the amount a pair is shifted by: 1 in one column, or the setsum of an entry no store holds
+fn pair_shift(rng: &mut Rng, salt: u64) -> setsum::Setsum {
+    if rng.chance(1, 2) {
+        let mut d = [0u8; 32];
+        d[4 * rng.below(8) as usize] = 1;
+        setsum::Setsum::from_digest(d)
+    } else {
+        let mut x = sst::Setsum::default();
+        x.put(b"\xfepair", (1u64 << 41) + salt, b"never stored");
+        x.into_inner()
+    }
+}
+
+fn dg(s: &Option<String>) -> Option<setsum::Setsum> {
+    s.as_ref().and_then(|s| setsum::Setsum::from_hexdigest(s))
+}
+
+/// alter record `k` (not the first) of a fragment; None = the alteration does not apply there
+/// (a digest does not parse, there is no next record, nothing would change)
+fn alter_pair(es: &mut [EditRec], k: usize, what: &str, x: setsum::Setsum) -> Option<()> {
+    let (i, o, d) = (dg(&es[k].i)?, dg(&es[k].o)?, dg(&es[k].d)?);
+    let zero = setsum::Setsum::default();
+    match what {
+        "D+x,O-x" => {
+            es[k].d = Some((d + x).hexdigest());
+            es[k].o = Some((o - x).hexdigest());
+        }
+        "D-x,O+x" => {
+            es[k].d = Some((d - x).hexdigest());
+            es[k].o = Some((o + x).hexdigest());
+        }
+        "D=0,O=I" => {
+            if d == zero {
+                return None;
+            }
+            es[k].d = Some(zero.hexdigest());
+            es[k].o = Some(i.hexdigest());
+        }
+        "O+x,nextI+x" => {
+            let ni = dg(&es.get(k + 1)?.i)?;
+            es[k].o = Some((o + x).hexdigest());
+            es[k + 1].i = Some((ni + x).hexdigest());
+        }
+        "D-x,O+x,nextI+x,nextO+x" => {
+            let (ni, no) = (dg(&es.get(k + 1)?.i)?, dg(&es.get(k + 1)?.o)?);
+            es[k].d = Some((d - x).hexdigest());
+            es[k].o = Some((o + x).hexdigest());
+            es[k + 1].i = Some((ni + x).hexdigest());
+            es[k + 1].o = Some((no + x).hexdigest());
+        }
+        _ => return None,
+    }
+    Some(())
+}
+
+fn record_position(k: usize, len: usize) -> &'static str {
+    if len == 2 {
+        "only"
+    } else if k == 1 {
+        "first"
+    } else if k + 1 == len {
+        "last"
+    } else {
+        "middle"
+    }
+}
+
+/// The systematic stream on pairs of recorded digests, on the store's own directories: for every
+/// kind of record (ingest, compaction, garbage collection) that a fragment still to be verified
+/// holds, one record (never a fragment's first: `partial`) is rewritten in a copy of the directory
+/// with two (or, with the next record, three / four) of its digests altered by amounts that
+/// cancel — the record still balances, the names (and so the accumulator) are untouched — and the
+/// real LsmVerifier runs on the copy: it must end with a corruption error (D = Σ removed − Σ added
+/// is a check of its own); the model gets the same directory.
+fn pair_matrix(rec: &mut Recorder, rng: &mut Rng, sim: &Sim, root: &str, tag: &str, taint: &Option<String>, rot: &mut std::collections::BTreeMap<&'static str, u64>) {
+    let dir = full_dir(root);
+    if dir.unreadable {
+        return;
+    }
+    let mut cands: std::collections::BTreeMap<&'static str, Vec<(u64, usize)>> = Default::default();
+    for (n, es) in dir.to_process() {
+        for (k, e) in es.iter().enumerate().skip(1) {
+            cands.entry(edit_kind(e)).or_default().push((*n, k));
+        }
+    }
+    for kind in ["ingest", "compaction", "gc"] {
+        let Some(list) = cands.get(kind) else { continue };
+        if kind == "ingest" {
+            let r = rot.entry("pair-ingest-turn").or_insert(0);
+            *r += 1;
+            if *r % 2 != 1 {
+                continue;
+            }
+        }
+        let key: &'static str = match kind {
+            "ingest" => "pair-ingest",
+            "compaction" => "pair-compaction",
+            _ => "pair-gc",
+        };
+        let r = rot.entry(key).or_insert(0);
+        let what = PAIR_ALTERATIONS[(*r % PAIR_ALTERATIONS.len() as u64) as usize];
+        *r += 1;
+        // a record that is followed by another one in its fragment when there is one (there the
+        // recorded O is compared with nothing), every fourth time any record
+        let inner: Vec<(u64, usize)> = list.iter().filter(|(n, k)| dir.frags.iter().any(|f| f.0 == *n && k + 1 < f.1.len())).cloned().collect();
+        let pool = if !inner.is_empty() && *r % 4 != 0 { &inner } else { list };
+        let (n, k) = pool[rng.below(pool.len() as u64) as usize];
+        let mut es = dir.frags.iter().find(|f| f.0 == n).unwrap().1.clone();
+        let x = pair_shift(rng, rec.n);
+        let pos = record_position(k, es.len());
+        if alter_pair(&mut es, k, what, x).is_none() {
+            rec.count(&format!("pair_tamper.not_applicable.{}", what));
+            continue;
+        }
+        let copy = format!("{}.pair", root);
+        let _ = std::fs::remove_dir_all(&copy);
+        if copy_dir(Path::new(root), Path::new(&copy)).is_err() {
+            continue;
+        }
+        write_fragment(Path::new(&format!("{}/mani/MANIFEST.{}", copy, n)), &es);
+        rec.count(&format!("pair_tamper.{}.{}.{}", kind, pos, what));
+        pass_case_class(rec, &format!("{} digest-pair {} of record {} ({}, {}) of MANIFEST.{}", tag, what, k, kind, pos, n), &sim.cfg, &copy, taint, Some(&format!("{} of record {} of MANIFEST.{}", what, k, n)), "pass.pair", None, "tampered-digest-pair-accepted");
+        let _ = std::fs::remove_dir_all(&copy);
+    }
+}
+
+/// one transaction of a hand-written directory: files are given by their entries
+enum Tx {
+    Ingest(Vec<Ent>),
+    Replace { rm: Vec<Vec<Ent>>, add: Vec<Vec<Ent>> },
+}
+
+/// A store directory written by hand: fragment `i` of `frags` is MANIFEST.<i+1> (the state at its
+/// creation, then one record per transaction, every digest what the files say), followed by two
+/// fragments that hold the final state only, so that the verifier processes every fragment given.
+/// Files the final state lists are in sst/, the others in trash/.
+fn build_dir(root: &str, frags: &[Vec<Tx>]) -> Result<(), String> {
+    let _ = std::fs::remove_dir_all(root);
+    for sub in ["mani", "sst", "trash"] {
+        std::fs::create_dir_all(format!("{}/{}", root, sub)).map_err(|e| e.to_string())?;
+    }
+    let z = zero_digest();
+    let rollup = |names: &[String], total: &setsum::Setsum| {
+        let mut names = names.to_vec();
+        names.sort();
+        EditRec { i: Some(total.hexdigest()), o: Some(total.hexdigest()), d: Some(z.clone()), l: None, added: names, rmed: vec![] }
+    };
+    let mut live: Vec<String> = vec![];
+    let mut acc = setsum::Setsum::default();
+    let mut contents: std::collections::BTreeMap<String, Vec<Ent>> = Default::default();
+    for (fi, txs) in frags.iter().enumerate() {
+        let mut edits = vec![rollup(&live, &acc)];
+        for tx in txs {
+            match tx {
+                Tx::Ingest(f) => {
+                    let s = entry_setsum(f);
+                    if live.contains(&s.hexdigest()) {
+                        return Err("ingest of a listed file".into());
+                    }
+                    contents.insert(s.hexdigest(), f.clone());
+                    edits.push(EditRec { i: Some(acc.hexdigest()), o: Some((acc + s).hexdigest()), d: Some((setsum::Setsum::default() - s).hexdigest()), l: None, added: vec![s.hexdigest()], rmed: vec![] });
+                    acc += s;
+                    live.push(s.hexdigest());
+                }
+                Tx::Replace { rm, add } => {
+                    let mut d = setsum::Setsum::default();
+                    let mut rms = vec![];
+                    let mut adds = vec![];
+                    for f in rm {
+                        let s = entry_setsum(f);
+                        if !live.contains(&s.hexdigest()) {
+                            return Err("removal of a file that is not listed".into());
+                        }
+                        d += s;
+                        rms.push(s.hexdigest());
+                    }
+                    for f in add {
+                        let s = entry_setsum(f);
+                        if live.contains(&s.hexdigest()) || contents.contains_key(&s.hexdigest()) {
+                            return Err("output under the name of an existing file".into());
+                        }
+                        contents.insert(s.hexdigest(), f.clone());
+                        d -= s;
+                        adds.push(s.hexdigest());
+                    }
+                    rms.sort();
+                    adds.sort();
+                    edits.push(EditRec { i: Some(acc.hexdigest()), o: Some((acc - d).hexdigest()), d: Some(d.hexdigest()), l: None, added: adds.clone(), rmed: rms.clone() });
+                    acc = acc - d;
+                    live.retain(|x| !rms.contains(x));
+                    live.extend(adds);
+                }
+            }
+        }
+        write_fragment(Path::new(&format!("{}/mani/MANIFEST.{}", root, fi + 1)), &edits);
+    }
+    write_fragment(Path::new(&format!("{}/mani/MANIFEST.{}", root, frags.len() + 1)), &[rollup(&live, &acc)]);
+    write_fragment(Path::new(&format!("{}/mani/MANIFEST", root)), &[rollup(&live, &acc)]);
+    for (name, f) in &contents {
+        let sub = if live.contains(name) { "sst" } else { "trash" };
+        build_sst(&format!("{}/{}/{}.sst", root, sub, name), f)?;
+    }
+    Ok(())
+}
+
+const PAIR_TARGETS: &[&str] = &["ingest", "compaction", "gc"];
+const PAIR_POSITIONS: &[&str] = &["first", "middle", "last"];
+
+/// Directed stream on the pairs: a hand-written directory in which the record aimed at — an
+/// ingest, a compaction (D = 0) or a garbage collection under the policy (D ≠ 0), as the first,
+/// a middle or the last record of its fragment — is altered by one of `PAIR_ALTERATIONS` (or not
+/// at all: the control, which must verify), every kind x position x alteration in turn.
+fn pair_directed(rec: &mut Recorder, seed: u64, idx: u64) {
+    let mut rng = Rng::for_case(seed, 1042, idx);
+    let target = PAIR_TARGETS[(idx % 3) as usize];
+    let position = PAIR_POSITIONS[((idx / 3) % 3) as usize];
+    let alteration = ((idx / 9) % (PAIR_ALTERATIONS.len() as u64 + 1)) as usize;
+    let what = if alteration < PAIR_ALTERATIONS.len() { PAIR_ALTERATIONS[alteration] } else { "control" };
+    // the transaction in the middle of it all: two input files, merged
+    let collect = if target == "ingest" { rng.chance(1, 2) } else { target == "gc" };
+    let versions = if collect { *rng.pick(&[1u64, 1, 2]) } else { 3 };
+    let nkeys = rng.range(2, 4) as usize;
+    let mut ts_pool: Vec<u64> = (1..=30).collect();
+    rng.shuffle(&mut ts_pool);
+    let mut run: Vec<Ent> = vec![];
+    let mut vc = 0u64;
+    for k in 0..nkeys {
+        let key = ALPHABET[k + 1].to_vec();
+        // a collection has something to drop: more versions of the first key than the policy keeps
+        let nv = if k == 0 { versions as usize + 1 } else { rng.range(1, 3) as usize };
+        let mut tss: Vec<u64> = (0..nv).map(|_| ts_pool.pop().unwrap()).collect();
+        tss.sort_by(|a, b| b.cmp(a));
+        for t in tss {
+            vc += 1;
+            run.push((key.clone(), t, Some(format!("v{}", vc).into_bytes())));
+        }
+    }
+    // the newest and the oldest version of the first key (kept / dropped by a collection) in one
+    // file, the newest version of the second key in the other: the output is neither input
+    let mut ins: Vec<Vec<Ent>> = vec![vec![], vec![]];
+    let first_of_second_key = versions as usize + 1;
+    for (n, e) in run.iter().enumerate() {
+        let to = if n == 0 || n + 1 == first_of_second_key {
+            0
+        } else if n == first_of_second_key {
+            1
+        } else {
+            rng.below(2) as usize
+        };
+        ins[to].push(e.clone());
+    }
+    let outs: Vec<Ent> = if collect {
+        match real_retained(&run, versions) {
+            Ok(kept) => run.iter().filter(|e| kept.iter().any(|(k, t)| *k == e.0 && *t == e.1)).cloned().collect(),
+            Err(e) => {
+                rec.case(&format!("# pairdir {} collector", idx), "#", Verdict::Fail { class: "collector-error".into(), detail: e }, None);
+                return;
+            }
+        }
+    } else {
+        run.clone()
+    };
+    let filler = |n: u64| -> Vec<Ent> { vec![(ALPHABET[9 + (n % 3) as usize].to_vec(), 100 + n, Some(format!("filler{}", n).into_bytes()))] };
+    let t = || Tx::Replace { rm: ins.clone(), add: if outs.is_empty() { vec![] } else { vec![outs.clone()] } };
+    let a = || Tx::Ingest(ins[0].clone());
+    let b = || Tx::Ingest(ins[1].clone());
+    // (fragments, fragment number and record aimed at)
+    let (frags, n, k): (Vec<Vec<Tx>>, u64, usize) = match (target, position) {
+        ("ingest", "first") => (vec![vec![a(), b(), t(), Tx::Ingest(filler(1))]], 1, 1),
+        ("ingest", "middle") => (vec![vec![a(), b(), t(), Tx::Ingest(filler(1))]], 1, 2),
+        ("ingest", _) => (vec![vec![a(), b(), t(), Tx::Ingest(filler(1))]], 1, 4),
+        (_, "first") => (vec![vec![a(), b()], vec![t(), Tx::Ingest(filler(1)), Tx::Ingest(filler(2))]], 2, 1),
+        (_, "middle") => (vec![vec![a(), b(), t(), Tx::Ingest(filler(1))]], 1, 3),
+        (_, _) => (vec![vec![a(), b(), t()]], 1, 3),
+    };
+    let root = scratch_dir(&format!("c04.pairdir.{}", idx));
+    if let Err(e) = build_dir(&root, &frags) {
+        let _ = std::fs::remove_dir_all(&root);
+        rec.case(&format!("# pairdir {} build", idx), "#", Verdict::Fail { class: "harness-build-error".into(), detail: e }, None);
+        return;
+    }
+    let path = format!("{}/mani/MANIFEST.{}", root, n);
+    let mut es = read_fragment(Path::new(&path)).unwrap_or_default();
+    if es.len() <= k {
+        rec.case(&format!("# pairdir {} build", idx), "#", Verdict::Fail { class: "harness-build-error".into(), detail: format!("fragment {} holds {} records", n, es.len()) }, None);
+        let _ = std::fs::remove_dir_all(&root);
+        return;
+    }
+    let kind = edit_kind(&es[k]);
+    let pos = record_position(k, es.len());
+    let mut applied = what;
+    if what != "control" {
+        let x = pair_shift(&mut rng, idx);
+        if alter_pair(&mut es, k, what, x).is_none() {
+            // no next record / nothing discarded: the plain pair instead
+            applied = "D+x,O-x";
+            if alter_pair(&mut es, k, applied, x).is_none() {
+                applied = "control";
+            }
+        }
+        if applied != "control" {
+            write_fragment(Path::new(&path), &es);
+        }
+    }
+    let cfg = gcdir_cfg(versions);
+    let before = full_dir(&root);
+    let req = before.request(&root, versions);
+    let status = real_pass(&cfg, &root);
+    let after = full_dir(&root);
+    let obs = observed_pass_full(&before, &after, &status);
+    let _ = std::fs::remove_dir_all(&root);
+    rec.count(&format!("pairdir.{}.{}.{}.{}", kind, pos, applied, status.replace(':', ".")));
+    let v = if applied == "control" {
+        if status == "ok" { Verdict::Ok } else { Verdict::Fail { class: "verifier-rejects-consistent-directory".into(), detail: format!("pairdir {} ({} {}): {}", idx, kind, pos, status) } }
+    } else if !status.starts_with("corrupt") {
+        Verdict::Fail { class: "tampered-digest-pair-accepted".into(), detail: format!("pairdir {}: {} of record {} ({}, {} of its fragment) of MANIFEST.{}: the pass ends {}", idx, applied, k, kind, pos, n, status) }
+    } else {
+        Verdict::Ok
+    };
+    rec.case(&req, &obs, v, Some(fnv(req.as_bytes())));
+}
+
+// ---------------------------------------------------------------------------------------------
+// recovery of several write-ahead logs in one open
+
+fn read_log(path: &Path) -> Result<Vec<Ent>, String> {
+    let mut it = sst::log::LogIterator::new(sst::LogOptions::default(), path).map_err(|e| format!("{:?}", e))?;
+    let mut out = vec![];
+    while let Some(kvr) = it.next().map_err(|e| format!("{:?}", e))? {
+        out.push((kvr.key.to_vec(), kvr.timestamp, kvr.value.map(|v| v.to_vec())));
+    }
+    Ok(out)
+}
+
+fn write_log(path: &Path, entries: &[Ent]) -> Result<(), String> {
+    use sst::Builder;
+    let mut log = sst::LogBuilder::new(sst::LogOptions::default(), path).map_err(|e| format!("{:?}", e))?;
+    for (k, t, v) in entries {
+        match v {
+            Some(v) => log.put(k, *t, v),
+            None => log.del(k, *t),
+        }
+        .map_err(|e| format!("{:?}", e))?;
+    }
+    log.seal().map_err(|e| format!("{:?}", e))?;
+    Ok(())
+}
+
+/// the numbered logs in a store's root, ascending, with their entries
+fn logs_of(root: &str) -> Vec<(u64, Vec<Ent>)> {
+    let mut v: Vec<(u64, Vec<Ent>)> = vec![];
+    if let Ok(rd) = std::fs::read_dir(root) {
+        for e in rd.flatten() {
+            let name = e.file_name().to_string_lossy().to_string();
+            if let Some(n) = name.strip_prefix("log.").and_then(|x| x.parse::<u64>().ok()) {
+                v.push((n, read_log(&e.path()).unwrap_or_default()));
+            }
+        }
+    }
+    v.sort_by_key(|x| x.0);
+    v
+}
+
+/// what the newest manifest fragment lists and records as output (nothing and zero: no manifest)
+fn manifest_state(root: &str) -> (Vec<String>, String, u64, bool) {
+    let frags = list_fragments(root);
+    let numbered = frags.len() as u64 - 1;
+    let newest = frags.last().unwrap();
+    let mut strs: std::collections::BTreeSet<String> = Default::default();
+    let mut o = zero_digest();
+    let exists = newest.exists();
+    if let Ok(edits) = read_fragment(newest) {
+        for e in &edits {
+            for r in &e.rmed {
+                strs.remove(r);
+            }
+            for a in &e.added {
+                strs.insert(a.clone());
+            }
+            if let Some(x) = &e.o {
+                o = x.clone();
+            }
+        }
+    }
+    (strs.into_iter().collect(), o, numbered, exists)
+}
+
+fn render_rec(e: &EditRec) -> String {
+    format!("{},{},{},{},{}", e.i.clone().unwrap_or_else(|| "?".into()), e.o.clone().unwrap_or_else(|| "?".into()), e.d.clone().unwrap_or_else(|| "?".into()), join_or_dash(&e.rmed), join_or_dash(&e.added))
+}
+
+fn options_with(cfg: &Cfg, path: &str, stall_files: u64, stall_bytes: Option<u64>) -> lsmtk::LsmtkOptions {
+    use arrrg::CommandLine;
+    let mut args: Vec<String> = vec![
+        "--path".into(),
+        path.into(),
+        "--memtable-size-bytes".into(),
+        cfg.memtable_bytes.to_string(),
+        "--sst-target-file-size".into(),
+        cfg.target_file.to_string(),
+        "--sst-minimum-file-size".into(),
+        cfg.min_file.to_string(),
+        "--sst-target-block-size".into(),
+        cfg.target_block.to_string(),
+        "--l0-write-stall-threshold-files".into(),
+        stall_files.to_string(),
+        "--gc-policy".into(),
+        format!("versions = {}", cfg.gc_versions),
+        "--mani-log-rollover-ratio".into(),
+        cfg.mani_ratio.to_string(),
+    ];
+    if let Some(b) = stall_bytes {
+        args.push("--l0-write-stall-threshold-bytes".into());
+        args.push(b.to_string());
+    }
+    let refs: Vec<&str> = args.iter().map(|s| s.as_str()).collect();
+    let (opts, free) = lsmtk::LsmtkOptions::from_arguments_relaxed("blueharness", &refs);
+    assert!(free.is_empty(), "free args: {:?}", free);
+    opts
+}
+
+fn apply_to(oracle: &mut std::collections::BTreeMap<Vec<u8>, Option<Vec<u8>>>, k: &[u8], v: Option<&[u8]>) {
+    oracle.insert(k.to_vec(), v.map(|v| v.to_vec()));
+}
+
+/// The crash image of a store whose flush is parked in the level-0 ingest stall while a client
+/// keeps writing, made with the store itself: the real `memtable_thread` on a helper thread
+/// rotates the log, seals it, builds and links the SST and then waits in `apply_manifest_ingest`
+/// (`complete` flushes go through first, level 0 is "full" after that many files — or always,
+/// `complete == None`: a byte threshold of zero); the writes that follow land in the fresh log; the
+/// directory is copied as it is (a process death there; every completed call persists); the
+/// threads are then sent home.  Every write was acknowledged before the copy.
+fn stalled_flush_image(rng: &mut Rng, root: &str, image: &str, cfg: &Cfg, complete: Option<u64>, oracle: &mut std::collections::BTreeMap<Vec<u8>, Option<Vec<u8>>>, nkeys: usize) -> Result<(), String> {
+    let opts = match complete {
+        Some(n) => options_with(cfg, root, n, None),
+        None => options_with(cfg, root, 1 << 20, Some(0)),
+    };
+    let kvs = std::sync::Arc::new(lsmtk::KeyValueStore::open(opts).map_err(|e| format!("open:{:?}", e).replace(char::is_whitespace, "_"))?);
+    let store_id = kvs.verif_tree().verif_id();
+    lsmtk::verif::forget(store_id);
+    let flusher = std::sync::Arc::clone(&kvs);
+    let handle = std::thread::spawn(move || {
+        let _ = guarded(std::panic::AssertUnwindSafe(|| flusher.memtable_thread()));
+    });
+    let wait_for = |cond: &dyn Fn() -> bool| -> bool {
+        let t0 = std::time::Instant::now();
+        while t0.elapsed() < std::time::Duration::from_secs(20) {
+            if cond() {
+                return true;
+            }
+            std::thread::sleep(std::time::Duration::from_micros(300));
+        }
+        false
+    };
+    let mut counter = 0u64;
+    let mut write = |rng: &mut Rng, oracle: &mut std::collections::BTreeMap<Vec<u8>, Option<Vec<u8>>>| -> Result<(), String> {
+        let k = gen_key(rng, nkeys);
+        counter += 1;
+        if rng.chance(1, 4) {
+            kvs.del(&k).map_err(|e| format!("del:{:?}", e).replace(char::is_whitespace, "_"))?;
+            apply_to(oracle, &k, None);
+        } else {
+            let v = format!("w{}", counter).into_bytes();
+            kvs.put(&k, &v).map_err(|e| format!("put:{:?}", e).replace(char::is_whitespace, "_"))?;
+            apply_to(oracle, &k, Some(&v));
+        }
+        Ok(())
+    };
+    let result = (|| -> Result<(), String> {
+        for _ in 0..complete.unwrap_or(0) {
+            for _ in 0..rng.range(1, 3) {
+                write(rng, oracle)?;
+            }
+            let mem_seq = kvs.verif_state().1;
+            kvs.verif_request_flush();
+            // done when the flush has cleared the immutable memtable it made of that memtable
+            if !wait_for(&|| {
+                let (_, _, trig, imm) = kvs.verif_state();
+                trig >= mem_seq && !imm && kvs.verif_state().1 > mem_seq
+            }) {
+                return Err("a flush that should go through did not".into());
+            }
+        }
+        for _ in 0..rng.range(1, 3) {
+            write(rng, oracle)?;
+        }
+        kvs.verif_request_flush();
+        if !wait_for(&|| kvs.verif_parked().0.iter().any(|p| p.condvar == "stall")) {
+            return Err("the flush did not reach the ingest stall".into());
+        }
+        for _ in 0..rng.range(1, 3) {
+            write(rng, oracle)?;
+        }
+        let _ = std::fs::remove_dir_all(image);
+        copy_dir(Path::new(root), Path::new(image)).map_err(|e| format!("copy: {}", e))
+    })();
+    kvs.verif_shutdown();
+    let _ = handle.join();
+    lsmtk::verif::forget(store_id);
+    drop(kvs);
+    result
+}
+
+/// Directed family: a store directory with SEVERAL non-empty write-ahead logs that the manifest
+/// does not know yet, recovered in one open.  Hand-written (`LogBuilder` files numbered and
+/// stamped above everything the store wrote; on an empty directory or after a short history whose
+/// own log is still there) or left by the store itself (`stalled_flush_image`).  The request is
+/// `ledger recover`: the records `KeyValueStore::recover` owes (one ingest per log in ascending
+/// order, each starting from the output of the one before); the oracle reads the records the open
+/// wrote (chain, balance, the file each adds is the log's entries), then the whole C04 oracle on
+/// the recovered store (`books_check`), every acknowledged write, a verifier pass on a copy, and
+/// once more after another reopen.
+pub const SEVERAL_LOGS_VARIANTS: &[&str] = &["hand-fresh", "hand-after-history", "stalled-flush", "stalled-second-flush", "stalled-flush-after-history", "hand-three-logs"];
+
+/// the directory of `two_logs` (also reopened by C02 as a crash image): where it is, and every
+/// write acknowledged before the "crash"; Err = (oracle class, detail)
+pub fn several_logs_image(rng: &mut Rng, variant: &str, cfg: &Cfg, nkeys: usize, root: &str) -> Result<(String, std::collections::BTreeMap<Vec<u8>, Option<Vec<u8>>>), (String, String)> {
+    let image = format!("{}.image", root);
+    let mut oracle: std::collections::BTreeMap<Vec<u8>, Option<Vec<u8>>> = Default::default();
+    // --- a short history of the store itself first
+    let with_history = variant == "hand-after-history" || variant == "stalled-flush-after-history";
+    let mut seq = 0u64;
+    if with_history {
+        let mut ops = gen_history(rng, 12, nkeys, 0);
+        ops.retain(|o| !matches!(o, Op::Verify));
+        ops.push(Op::Put(gen_key(rng, nkeys), b"last-before-close".to_vec()));
+        let r = guarded(std::panic::AssertUnwindSafe(|| -> Result<(std::collections::BTreeMap<Vec<u8>, Option<Vec<u8>>>, u64), String> {
+            let mut sim = Sim::open(root, cfg)?;
+            for op in &ops {
+                sim.apply(op)?;
+            }
+            let seq = sim.kvs().verif_state().0;
+            sim.kvs = None;
+            Ok((sim.oracle.clone(), seq))
+        }));
+        match r {
+            Ok(Ok((o, s))) => {
+                oracle = o;
+                seq = s;
+            }
+            Ok(Err(e)) => return Err(("fault-free-op-error".into(), e)),
+            Err(p) => return Err(("fault-free-op-error".into(), format!("panic:{}", p))),
+        }
+    }
+    // --- the logs
+    if variant.starts_with("hand") {
+        let _ = std::fs::create_dir_all(root);
+        let nlogs = match variant {
+            "hand-three-logs" => 3,
+            "hand-after-history" => rng.range(1, 2),
+            _ => 2,
+        };
+        let mut ts = seq + 1;
+        let mut vc = 0;
+        for _ in 0..nlogs {
+            let number = ts;
+            let mut entries: Vec<Ent> = vec![];
+            for _ in 0..rng.range(1, 4) {
+                ts += 1;
+                vc += 1;
+                let k = gen_key(rng, nkeys);
+                let v = if rng.chance(1, 4) { None } else { Some(format!("h{}", vc).into_bytes()) };
+                apply_to(&mut oracle, &k, v.as_deref());
+                entries.push((k, ts, v));
+            }
+            ts += 1;
+            if let Err(e) = write_log(Path::new(&format!("{}/log.{}", root, number)), &entries) {
+                return Err(("harness-build-error".into(), e));
+            }
+        }
+        Ok((root.to_string(), oracle))
+    } else {
+        let complete = match variant {
+            "stalled-second-flush" => Some(1),
+            _ => None,
+        };
+        if let Err(e) = stalled_flush_image(rng, root, &image, cfg, complete, &mut oracle, nkeys) {
+            let _ = std::fs::remove_dir_all(root);
+            let _ = std::fs::remove_dir_all(&image);
+            return Err(("scenario-not-reached".into(), e));
+        }
+        let _ = std::fs::remove_dir_all(root);
+        Ok((image, oracle))
+    }
+}
+
+/// configuration of the `several_logs_image` family
+pub fn several_logs_cfg(rng: &mut Rng) -> (Cfg, usize) {
+    let mut cfg = Cfg::gen(rng);
+    cfg.memtable_bytes = 1 << 20;
+    cfg.mani_ratio = *rng.pick(&[2, 10, 10]);
+    let nkeys = *rng.pick(&[3usize, 5, 8]);
+    (cfg, nkeys)
+}
+
+fn two_logs(rec: &mut Recorder, seed: u64, idx: u64) {
+    let mut rng = Rng::for_case(seed, 1043, idx);
+    let variant = SEVERAL_LOGS_VARIANTS[(idx % 6) as usize];
+    let (cfg, nkeys) = several_logs_cfg(&mut rng);
+    let root = scratch_dir(&format!("c04.twologs.{}", idx));
+    let tag = format!("twologs{}:{}", idx, variant);
+    let (dir, oracle) = match several_logs_image(&mut rng, variant, &cfg, nkeys, &root) {
+        Ok(x) => x,
+        Err((class, detail)) => {
+            let _ = std::fs::remove_dir_all(&root);
+            let _ = std::fs::remove_dir_all(format!("{}.image", root));
+            rec.case(&format!("# {}", tag), "#", Verdict::Fail { class, detail: format!("{} {}", tag, detail) }, None);
+            return;
+        }
+    };
+    // --- what the open owes
+    let logs: Vec<(u64, Vec<Ent>)> = logs_of(&dir).into_iter().filter(|l| !l.1.is_empty()).collect();
+    rec.count(&format!("twologs.{}.logs{}", variant, logs.len()));
+    let (listed, o_before, numbered_before, had_manifest) = manifest_state(&dir);
+    let mut sorted_logs: Vec<(u64, String)> = vec![];
+    for (n, es) in &logs {
+        let mut es = es.clone();
+        es.sort_by(|a, b| a.0.cmp(&b.0).then(b.1.cmp(&a.1)));
+        sorted_logs.push((*n, entry_setsum(&es).hexdigest()));
+    }
+    let req = format!("ledger recover {} {} {}", o_before, join_or_dash(&listed), if sorted_logs.is_empty() { "-".to_string() } else { sorted_logs.iter().map(|l| l.1.clone()).collect::<Vec<_>>().join(" ") });
+    let mut open_cfg = cfg.clone();
+    open_cfg.mani_ratio = 10;
+    let opened = guarded(std::panic::AssertUnwindSafe(|| Sim::open(&dir, &open_cfg)));
+    // --- the records the open wrote: every record but the first of every fragment that is new
+    let first_new = numbered_before + if had_manifest { 1 } else { 0 };
+    let mut written: Vec<EditRec> = vec![];
+    let frags = list_fragments(&dir);
+    for (fi, f) in frags.iter().enumerate() {
+        let is_live = fi + 1 == frags.len();
+        let number = mani::extract_backup(f).unwrap_or(u64::MAX);
+        if is_live || number > first_new {
+            if let Ok(es) = read_fragment(f) {
+                written.extend(es.into_iter().skip(1));
+            }
+        }
+    }
+    let mut bad: Vec<String> = vec![];
+    let mut prev = setsum::Setsum::from_hexdigest(&o_before).unwrap_or_default();
+    let owed: Vec<&(u64, String)> = sorted_logs.iter().filter(|l| !listed.contains(&l.1)).collect();
+    if written.len() != owed.len() {
+        bad.push(format!("{} logs to recover, {} transactions written", owed.len(), written.len()));
+    }
+    for (n, (e, l)) in written.iter().zip(owed.iter()).enumerate() {
+        match (dg(&e.i), dg(&e.o), dg(&e.d)) {
+            (Some(i), Some(o), Some(d)) => {
+                if i != prev {
+                    bad.push(format!("recovery transaction {} (log.{}) has I={}… although the output recorded before it is {}…", n, l.0, &i.hexdigest()[..12], &prev.hexdigest()[..12]));
+                }
+                if i != o + d {
+                    bad.push(format!("recovery transaction {} (log.{}) does not balance", n, l.0));
+                }
+                if e.added != vec![l.1.clone()] || !e.rmed.is_empty() {
+                    bad.push(format!("recovery transaction {} does not add exactly the entries of log.{}", n, l.0));
+                }
+                let s = setsum::Setsum::from_hexdigest(&l.1).unwrap_or_default();
+                if o != prev + s {
+                    bad.push(format!("output of recovery transaction {} (log.{}) is not the previous output plus the file", n, l.0));
+                }
+                prev = o;
+            }
+            _ => bad.push(format!("recovery transaction {} lacks a digest", n)),
+        }
+    }
+    let obs = if written.is_empty() { "-".to_string() } else { written.iter().map(render_rec).collect::<Vec<_>>().join(" ") };
+    let mut sim = match opened {
+        Ok(Ok(s)) => s,
+        Ok(Err(e)) | Err(e) => {
+            let what = ["setsumoftreedoesnotmatchsetsumofmanifest", "corruption", "logic_error"].iter().find(|w| e.replace('_', "").contains(&w.replace('_', ""))).map(|w| w.to_string());
+            let short: String = what.unwrap_or_else(|| e.chars().filter(|c| !c.is_whitespace()).take(100).collect());
+            rec.count("twologs.open_refused");
+            rec.case(&req, &format!("open-error:{} {}", short, obs), Verdict::Fail { class: "recovery-of-several-logs-refused".into(), detail: format!("{}: the store does not open on {} non-empty logs ({}); the manifest it leaves: {}", tag, logs.len(), short, if bad.is_empty() { "chains".to_string() } else { bad.join("; ") }) }, Some(fnv(req.as_bytes())));
+            let _ = std::fs::remove_dir_all(&dir);
+            return;
+        }
+    };
+    sim.oracle = oracle.clone();
+    let v = if bad.is_empty() { Verdict::Ok } else { Verdict::Fail { class: "recovery-transactions-do-not-chain".into(), detail: format!("{} {}", tag, bad.join("; ")) } };
+    rec.case(&req, &obs, v, if owed.len() >= 2 { Some(fnv(req.as_bytes())) } else { None });
+    // --- the recovered store
+    let mverifier = lsmtk::ManifestVerifier::open().unwrap();
+    let mut seen: std::collections::BTreeSet<String> = Default::default();
+    let mut taint: Option<String> = None;
+    CONTENTS.with(|c| c.borrow_mut().clear());
+    for round in 0..2 {
+        let rtag = format!("{} open{}", tag, round);
+        if taint.is_none() && sim.dump().map(|d| crate::c01::d9_trigger(&d)).unwrap_or(false) {
+            taint = Some("reopen-with-key-and-timestamp-overlapping-files".to_string());
+            rec.count("twologs.tainted_by_D9_trigger");
+        }
+        if !books_check(rec, &mut rng, &sim, &dir, &rtag, &taint, &mverifier, &mut seen, 1) {
+            break;
+        }
+        let mut lost: Vec<String> = vec![];
+        for (k, want) in &oracle {
+            match guarded(std::panic::AssertUnwindSafe(|| sim.get(k))) {
+                Ok(Ok(got)) if &got == want => {}
+                Ok(Ok(got)) => lost.push(format!("key {} reads {:?}, acknowledged {:?}", hex(k), got.as_ref().map(|v| hex(v)), want.as_ref().map(|v| hex(v)))),
+                Ok(Err(e)) | Err(e) => lost.push(format!("key {}: {}", hex(k), e)),
+            }
+        }
+        rec.count("twologs.read_back");
+        let v = if lost.is_empty() { Verdict::Ok } else { Verdict::Fail { class: taint.clone().unwrap_or_else(|| "acknowledged-write-lost-in-recovery".to_string()), detail: format!("{} {}", rtag, lost.join("; ")) } };
+        rec.case(&format!("# {} read-back", rtag), "#", tainted(v, &taint), None);
+        if round == 0 {
+            let copy = format!("{}.verify", dir);
+            let _ = std::fs::remove_dir_all(&copy);
+            if copy_dir(Path::new(&dir), Path::new(&copy)).is_ok() {
+                pass_case(rec, &format!("{} pass", rtag), &open_cfg, &copy, &taint, None, "pass.recovered", None);
+            }
+            let _ = std::fs::remove_dir_all(&copy);
+            match guarded(std::panic::AssertUnwindSafe(|| sim.apply(&Op::Reopen))) {
+                Ok(Ok(())) => {}
+                Ok(Err(e)) | Err(e) => {
+                    rec.case(&format!("# {} reopen", rtag), "#", Verdict::Fail { class: taint.clone().unwrap_or_else(|| "fault-free-op-error".to_string()), detail: format!("{} reopen after recovery -> {}", rtag, e) }, None);
+                    break;
+                }
+            }
+        }
+    }
     sim.close();
 }
 
@@ -1305,8 +2067,20 @@ pub fn run(args: &Args) {
     if std::env::var("BLUE_DEBUG").is_ok() {
         eprintln!("with gc-directed: {:?}", t0.elapsed());
     }
+    for i in 0..(if args.thorough { 1080 } else { 216 }) {
+        pair_directed(&mut rec, args.seed, i);
+    }
+    if std::env::var("BLUE_DEBUG").is_ok() {
+        eprintln!("with pair-directed: {:?}", t0.elapsed());
+    }
+    for i in 0..(if args.thorough { 240 } else { 48 }) {
+        two_logs(&mut rec, args.seed, i);
+    }
+    if std::env::var("BLUE_DEBUG").is_ok() {
+        eprintln!("with two-logs: {:?}", t0.elapsed());
+    }
     rec.finish(
-        "store histories as in C01; after every manifest transaction (flush, compaction step, reopen) and a third of the writes: books of the current state (manifest O vs sum of listed SST setsums vs setsums recomputed from stored entries), every manifest fragment's chain/balance/discard through the real ManifestVerifier and through Blue.Books.verify over the canonical-setsum group, and tampered copies of fragments with one hex digit of one recorded digest (I, O, D, added, removed) changed, or its text changed to another spelling of the same value (+x, upper case); every pass of the real LsmVerifier (inside histories, on untampered copies, on copies with one entry of one file changed under the file's name: file kind x tamper kind x metadata setsum kept/recomputed, on hand-written directories with one garbage collection whose record is consistent but whose outputs are not the policy's) against Blue.Verifier.pass with the real checks (Blue.VerifyOne) on the dumped directory and file contents; non-trivial = a state with >= 2 files, a fragment with >= 2 transactions, any tampered fragment, a pass that has at least one transaction to verify; distinct by request",
+        "store histories as in C01; after every manifest transaction (flush, compaction step, reopen) and a third of the writes: books of the current state (manifest O vs sum of listed SST setsums vs setsums recomputed from stored entries), every manifest fragment's chain/balance/discard through the real ManifestVerifier and through Blue.Books.verify over the canonical-setsum group, and tampered copies of fragments with one hex digit of one recorded digest (I, O, D, added, removed) changed, or its text changed to another spelling of the same value (+x, upper case); every pass of the real LsmVerifier (inside histories, on untampered copies, on copies with one entry of one file changed under the file's name: file kind x tamper kind x metadata setsum kept/recomputed, on hand-written directories with one garbage collection whose record is consistent but whose outputs are not the policy's, on copies and hand-written directories with TWO digests of one record altered so that they cancel: record kind x position x alteration) against Blue.Verifier.pass with the real checks (Blue.VerifyOne) on the dumped directory and file contents; directed directories with two or three non-empty write-ahead logs unknown to the manifest (by hand, or left by a flush of the real store parked in the ingest stall while the client writes) reopened with the real store: the records the open wrote against Blue.Books.recoverRecs, then the books oracle, read-back, a verifier pass and a second reopen; non-trivial = a state with >= 2 files, a fragment with >= 2 transactions, any tampered fragment, a pass that has at least one transaction to verify; distinct by request",
         &[],
     );
 }
